@@ -151,3 +151,14 @@ _T2P_NEW = ("    try:\n        for dtype in types:\n            ddata = obj._d__
 CASES += [
     m("one handler around the loop over the types of a process (seeded change of round 7)", "C19-N", _T2P_OLD, _T2P_NEW),
 ]
+
+_TW19 = "quantarhei/spectroscopy/twod.py"
+_SD19 = "            (self.yaxis.length == data.shape[1])):\n            \n            self.data = data\n"
+CASES += [
+    {"name": "spectrum with a 'vanishing' imaginary part kept as a real array (seeded change of round 8)", "kind": "mutant", "rule": "C19-O", "edits": [
+        (_TW19, _SD19, "            (self.yaxis.length == data.shape[1])):\n            if numpy.allclose(numpy.imag(data), 0.0):\n                data = numpy.real(data)\n            self.data = data\n", 1)]},
+    {"name": "spectrum stored in single precision", "kind": "mutant", "rule": "C19-O", "edits": [
+        (_TW19, _SD19, "            (self.yaxis.length == data.shape[1])):\n            self.data = numpy.array(data, dtype=numpy.float32)\n", 1)]},
+    {"name": "spectrum stored as a copy", "kind": "twin", "edits": [
+        (_TW19, _SD19, "            (self.yaxis.length == data.shape[1])):\n            self.data = numpy.array(data)\n", 1)]},
+]
